@@ -68,6 +68,20 @@ func init() {
 				s.Native = 48
 			}
 			s.Seps = []SepCfg{{Kind: "char", Char: pick(r, []string{"", "-", "é"})}, {Kind: "preset", Preset: pick(r, presetNames)}}
+			if r.Chance(0.4) {
+				// a hand-written separator function that can return "" while reporting positive entropy
+				s.Seps = append(s.Seps, SepCfg{Kind: "draw", Vals: []string{"", pick(r, asciiPool[:14]), "::"}})
+			}
+			if r.Chance(0.02) {
+				// a long list (several thousand shipped words) with a few entries that title-casing does not change
+				n := 4096 + r.Intn(3000)
+				s.Words = append(append([]string{}, spg.AgileWords[:n]...), pick(r, []string{"Zed", "4", "Ångström"}))
+				if r.Bool() {
+					s.Words = append(s.Words, "NASA")
+				}
+				s.Constructions, s.Native = 2, 6
+				s.Seps = s.Seps[:1]
+			}
 			if r.Chance(0.5) {
 				cc := genCharCfg(r, charOpt{small: true, budget: 40, maxLen: 2, maxReq: 1, noEmptied: true})
 				if modelChar(cc).Count().Sign() > 0 && len(modelChar(cc).Req) == 0 {
@@ -229,16 +243,16 @@ func runC08(c *Ctx, si interface{}) {
 					e := entropyOp(NewTape(TapeSpec{Mode: "choice", Seed: mix(s.Seed, k, rep), Default: "random"}), *rec)
 					c.Eval(1)
 					if twin || fixed {
-						c.Distinct(fmt.Sprint(s.Words), ord.Visit, scheme, si)
+						c.Distinct(fmt.Sprint(brief1(s.Words)), len(s.Words), ord.Visit, scheme, si)
 					}
-					desc := fmt.Sprintf("construction %d from %q (visit order %s), scheme %s, separator %s, Length %d", k, in, ord.Visit, scheme, sep, s.Length)
+					desc := fmt.Sprintf("construction %d from %q (visit order %s), scheme %s, separator %s, Length %d", k, brief1(in), ord.Visit, scheme, sep, s.Length)
 					if e.Kind != "ok" {
 						c.Violate("entropy-panic", "", "Entropy() %s: %s", e.brief(), desc)
 						return
 					}
 					got := float32(e.F)
 					if !f32close(float64(got), want, entTol(want)) {
-						c.Violate("entropy-formula", "", "Entropy() = %v, the formula gives %.6f (kept %q, all capitalisable: %v): %s", got, want, ml.Kept, ml.AllCap, desc)
+						c.Violate("entropy-formula", "", "Entropy() = %v, the formula gives %.6f (kept %q, all capitalisable: %v): %s", got, want, brief1(ml.Kept), ml.AllCap, desc)
 						return
 					}
 					kk := key{scheme, si}
@@ -262,7 +276,7 @@ func runC08(c *Ctx, si interface{}) {
 	c.Probe("twin_visited_before_lower_case_form", int64(visitStats.twinBeforeLower))
 	c.Probe("twin_visited_after_lower_case_form", int64(visitStats.twinAfterLower))
 	visitStats.twinBeforeLower, visitStats.twinAfterLower = 0, 0
-	c.Sample(map[string]interface{}{"words": s.Words, "kept": ml.Kept, "all_capitalisable": ml.AllCap, "constructions": total})
+	c.Sample(map[string]interface{}{"words": brief1(s.Words), "kept": brief1(ml.Kept), "all_capitalisable": ml.AllCap, "constructions": total})
 }
 
 type C10Spec struct {
